@@ -116,7 +116,9 @@ def make_request(ch, i):
 
 def run_one(ch, cfg):
     nclients = 2 + ch.draw(cfg["max_clients"] - 1, "nclients")
-    lat = [0.0, 0.0005, 0.01, 0.3]
+    # per run: a fast, an ordinary or a slow device (every answer stays below the 10 s exchange
+    # time-out, whole requests may take minutes)
+    lat = [[0.0, 0.0005, 0.01, 0.3], [0.0, 0.0005], [0.0, 0.3, 2.5, 6.0]][ch.draw(3, "device.speed")]
     w = ServerWorld(ch, device_cfg={"sig_from_request": True,
                                     "post_exit_signer": {"mode": 0x04, "delay": 0.3, "silence": "read_err"},
                                     "post_exit_uihb": {"mode": 0x03, "delay": 0.3, "silence": "read_err"}},
@@ -280,8 +282,29 @@ def _lock_free_handoff():
     return undo
 
 
+def _pool_with_give_up():
+    # the protocol call runs on a one-shot pool thread; past 20 s the handler answers a device error
+    # and moves on while the worker keeps talking to the device
+    import comm.server as m
+    from concurrent.futures import ThreadPoolExecutor, TimeoutError as _TO
+
+    def deliver(protocol, request):
+        ex = ThreadPoolExecutor(max_workers=1)
+        try:
+            return ex.submit(protocol.handle_request, request).result(timeout=20)
+        except _TO:
+            return protocol.device_error()
+        finally:
+            ex.shutdown(wait=False)
+    m._verif_deliver = deliver
+    return patch_function(m._RequestHandler, "handle",
+                          "response = self.protocol.handle_request(request)",
+                          "response = _verif_deliver(self.protocol, request)")
+
+
 MUTANTS = {
     "threading-tcp-server": _threading_server,
+    "pool-thread-with-give-up-timeout": _pool_with_give_up,
     "handler-hands-off-to-helper-thread": _lock_free_handoff,
 }
 
